@@ -148,7 +148,10 @@ class Conv:
                         runs[-1][1] += 1
                     else:
                         runs.append([dx, 1])
-                return {'t': 'list', 'addr': a, 'n': len(v), 'runs': [{'v': r[0], 'c': r[1]} for r in runs]}
+                if len(runs) <= max(4, len(v) // 8):
+                    return {'t': 'list', 'addr': a, 'n': len(v), 'runs': [{'v': r[0], 'c': r[1]} for r in runs]}
+                # not compressible: plain items (TraceVM compares long flat sequences without recursion)
+                return {'t': 'list', 'addr': a, 'items': [r[0] for r in runs for _ in range(r[1])]}
             return {'t': 'list', 'addr': a, 'items': [self.deep(x, seen, depth + 1) for x in v]}
         if type(v) is dict:
             if any(type(k) is not str for k in v):
@@ -184,7 +187,19 @@ class Conv:
                 a = self.address(v)
                 heap.append(None)
                 assert len(heap) == a
-                heap[a - 1] = {'t': 'list', 'items': [ref(x) for x in v]}
+                items = [ref(x) for x in v]
+                if len(items) >= 64:
+                    # long host lists travel run-length encoded (TraceVM expands them)
+                    runs = []
+                    for x in items:
+                        if runs and runs[-1]['v'] == x:
+                            runs[-1]['c'] += 1
+                        else:
+                            runs.append({'v': x, 'c': 1})
+                    if len(runs) <= len(items) // 8:
+                        heap[a - 1] = {'t': 'list', 'runs': runs}
+                        return {'t': 'list', 'addr': a}
+                heap[a - 1] = {'t': 'list', 'items': items}
                 return {'t': 'list', 'addr': a}
             if type(v) is dict:
                 if any(type(k) is not str for k in v):
@@ -193,6 +208,11 @@ class Conv:
                     return {'t': 'dict', 'addr': self.addr[id(v)]}
                 a = self.address(v)
                 heap.append(None)
+                ks = list(v)
+                if len(ks) >= 64 and ks == ['k%d' % i for i in range(len(ks))] and len(set(map(repr, v.values()))) == 1:
+                    # long uniform host dicts {"k0": x, "k1": x, ...} travel as a bulk record
+                    heap[a - 1] = {'t': 'dict', 'kbulk': len(ks), 'v': ref(v[ks[0]])}
+                    return {'t': 'dict', 'addr': a}
                 heap[a - 1] = {'t': 'dict', 'items': [[common.cps(k), ref(x)] for k, x in v.items()]}
                 return {'t': 'dict', 'addr': a}
             return {'t': 'opaque', 'type': type(v).__qualname__}
